@@ -325,7 +325,7 @@ func TestProp_C07_Schedules(t *testing.T) {
 	}
 	budget := 60
 	if sim.Thorough() {
-		budget = 1200
+		budget = 600
 	}
 	exhaustive := true
 	for vi, vp := range pairs {
